@@ -63,6 +63,13 @@ def _case(draw):
             pid += 1
             top.append([f'e{j}', ['ceval', pid, tgt[1]]])
             prods.append([pid, [f'e{j}'], 'ceval'])
+    # a call holding a !force-pinned dynamic argument; a later stage may give the key a call with another target, which drops
+    # the old arguments whatever their priority - the pinned producer then no longer exists and must not run
+    for j in range(draw(st.sampled_from([0, 0, 1]))):
+        pid += 2
+        top.append([f'pc{j}', ['pcall', pid - 1, pid]])
+        prods.append([pid - 1, [f'pc{j}'], 'pcall'])
+        prods.append([pid, [f'pc{j}', 'p'], 'pinned'])
     perm_seed = draw(st.lists(st.integers(0, 1000), min_size=8, max_size=8))
     # later stages: act on top-level keys only
     stages = []
@@ -79,6 +86,8 @@ def _case(draw):
         acts = []
         for k in draw(st.lists(st.sampled_from(keys), max_size=2, unique=True)):
             a = draw(st.sampled_from(['scalar', 'scalar', 'delete', 'list', 'delmap']))
+            if k.startswith('pc'):
+                a = draw(st.sampled_from(['retarget', 'retarget', 'scalar', 'delete']))
             if a == 'delete' and k in referenced:
                 a = 'scalar'
             if k not in ('box', 'lst') and a in ('list', 'delmap'):
@@ -129,6 +138,9 @@ def node_of(spec):
     if k == 'ccall':
         return tdoc.mp([('a', tdoc.raw(pstr(spec[2][0]), '!xref')), ('b', tdoc.raw(pstr(spec[2][1]), '!ref'))], flow=True,
                        tag=f'!call:vfrec.call_{spec[1]}')
+    if k == 'pcall':
+        inner = tdoc.mp([], flow=True, tag=f'!call:vfrec.call_{spec[2]}', prio=1, mdstyle='braces')
+        return tdoc.mp([('p', inner), ('q', tdoc.sc(1))], flow=True, tag=f'!call:vfrec.call_{spec[1]}')
     if k == 'ceval':
         e = pyexpr(spec[2])
         return tdoc.raw(f'import vfrec\nvfrec.note({spec[1]}, {e}, {e})', '!eval', q='block')
@@ -157,6 +169,8 @@ def stage_doc(acts):
             items.append([k, tdoc.empty(**{'del': True})])
         elif a == 'list':
             items.append([k, tdoc.sq([], flow=True)])
+        elif a == 'retarget':
+            items.append([k, tdoc.mp([('z', tdoc.sc(2))], flow=True, tag=f'!call:vfrec.call_{900 + int(k[2:])}')])
         elif a == 'list2':
             items.append([k, tdoc.sq([tdoc.sc(1), tdoc.sc(2), tdoc.sc(3), tdoc.sc(4), tdoc.sc(5)], flow=True)])
         else:
@@ -172,7 +186,14 @@ def survivors(case):
     out = set()
 
     def rec(spec, topkey):
-        if spec[0] in ('prod', 'ccall', 'ceval'):
+        if spec[0] == 'pcall':
+            if topkey not in overwritten:
+                out.update([spec[1], spec[2]])
+            else:
+                last = [a for acts in case['stages'] for k, a in acts if k == topkey][-1]
+                if last == 'retarget':
+                    out.add(900 + int(topkey[2:]))
+        elif spec[0] in ('prod', 'ccall', 'ceval'):
             if topkey not in overwritten:
                 out.add(spec[1])
         elif spec[0] == 'map':
